@@ -5,16 +5,15 @@
                    a dummy record of one word
                (what harness/camxfmt.py `records` writes for wind).
    impl side : the memory-mapped reader camxfiles/wind/Memmap.py. Its __init__ WALKS the records of the first step with a
-               RecordFile (FortranFileUtil.py) to count the layers,
+               RecordFile (FortranFileUtil.py) to count the layers (as repaired by db74c5b),
                    rf.next() ; lays = 1 ; record_size = rf.record_size
-                   while rf.record_size == record_size: lays += 1 ; rf.next()
-               where rf.next() does NOT advance and does NOT raise at the end of the file (it returns False): when the file
-               ends before a record of a different size is met the loop never terminates -- result WHang below.
-               Then  dummy_length = (rf.record_size + 8) // 4 ; lays //= 2 ; the step count from the file length,
-                   total_size = dummy_length ; times = 0
-                   while total_size < rf.length: times += 1 ; total_size += record * 2 * lays + time_hdr_size + 8
-                   times -= 1
-               (the dummy record is counted in words once and never per step), and lazily, on the first variable access,
+                   while rf.record_size == record_size:
+                       lays += 1
+                       if not rf.next(): raise ValueError('wind file ends inside its first time step')
+               (rf.next() returns False at the end of the file without moving; before db74c5b the loop then never terminated).
+               Then  dummy_length = (rf.record_size + 8) // 4 ; lays //= 2 ; the step count (as repaired by d3c85b3)
+                   step_size = record * 2 * lays + time_hdr_size + 8 + dummy_length * 4 ; times = rf.length // step_size
+               and lazily, on the first variable access,
                the slices of every counted step (ValueError when a slice is shorter than a step's data block), the check
                that the two markers of every data record agree, TFLAG from words 1, 2 of the time records, U / V from the
                even / odd data records. The trailing bytes after the last counted step are never looked at.
@@ -132,12 +131,12 @@ Definition rf_next (ws : list word) (len start sz : Z) : option (option (Z * Z))
 (* while rf.record_size == record_size: lays += 1 ; rf.next()   -- returns (lays, size word of the record that differs) *)
 Fixpoint w_walk (fuel : nat) (ws : list word) (len start sz d lays : Z) : wres (Z * Z) :=
   match fuel with
-  | O => WHang
+  | O => WHang                                 (* only for corrupt size words that move the walk backwards (d <= -8) *)
   | S f =>
     if sz =? d then
       match rf_next ws len start sz with
       | None => WErr
-      | Some None => WHang                     (* rf.next() returned False: same state, same test, for ever *)
+      | Some None => WErr                      (* rf.next() returned False: ValueError (db74c5b) *)
       | Some (Some (s', sz')) => w_walk f ws len s' sz' d (lays + 1)
       end
     else WOk (lays, sz)
@@ -179,10 +178,9 @@ Definition w_mm_read (rows cols : Z) (ws : list word) (len : Z) : wres wview :=
       let dl := (szd + 8) / 4 in                                             (* dummy_length, in words *)
       let lays := lays2 / 2 in
       let record := rows * cols * 4 + 8 in
-      let body := record * 2 * lays + m0 + 8 in
-      if body <=? 0 then WHang else                                          (* total_size would never grow *)
-      (* times = #{ j >= 0 : dl + j * body < len } - 1 *)
-      let times := if len <=? dl then -1 else (len - dl - 1) / body in
+      let step_size := record * 2 * lays + m0 + 8 + dl * 4 in
+      if step_size =? 0 then WErr else                                       (* ZeroDivisionError *)
+      let times := len / step_size in                                        (* rf.length // step_size *)
       (* memmap(rffile, '>f', 'r') *)
       if negb (len mod 4 =? 0) then WErr else
       if times <=? 0 then WErr else                                          (* len() of a negative dimension; // tsteps *)
@@ -206,15 +204,6 @@ Definition w_view_of (c : wind) : wview :=
 Definition w_truncate_steps (k : nat) (c : wind) : wind :=
   {| w_nx := w_nx c; w_ny := w_ny c; w_nz := w_nz c; w_stag := w_stag c; w_dummy := w_dummy c;
      w_steps := firstn k (w_steps c) |}.
-
-(* the cuts (in bytes) on which the layer-counting loop never terminates, for a file whose U/V records are not
-   4 bytes long: from the 12th byte on, up to the start of the dummy record of the FIRST step, except the (at most
-   3-byte) windows right after a record start where the next marker is incomplete and _newrecord raises *)
-Definition w_rec_start (c : wind) (i : Z) : Z := w_hdr_bytes c + (i - 1) * w_data_bytes c.    (* i-th record of step 0, i >= 1 *)
-Definition w_hang_cut (c : wind) (len : Z) : bool :=
-  ((12 <=? len) && (len <=? w_rec_start c 1))
-  || existsb (fun i => (w_rec_start c i + 4 <=? len) && (len <=? w_rec_start c (i + 1)))
-             (map Z.of_nat (seq 1 (Z.to_nat (2 * w_nz c)))).
 
 (* ---- the record reader (wind/Read.py): what read_into unpacks at a byte position (no id fields: cells right after
         the marker). Its seek arithmetic is TRANSLATED: Gen/Camx.v wr_layerrecords / wr_timerecords / wr_recordposition *)
